@@ -24,7 +24,7 @@ From KV Require Import Base.Bytes Model.Ast Model.Value Model.Eval Model.EvalVec
 From KV Require Model.Order Model.Limit Spec.Group.
 From KV Require Import Proofs.ScanProjProofs Proofs.AggregateLazyProofs Proofs.StorageProofs
                        Proofs.ScanSemProofs Proofs.ScanSlotsProofs Proofs.SelectPlansProofs
-                       Proofs.PipelineProofs Proofs.PipelineSProofs.
+                       Proofs.PipelineProofs Proofs.PipelineSProofs Proofs.BatchRowProofs.
 Import KV.Model.Value.
 Local Open Scope nat_scope.
 Local Open Scope list_scope.
@@ -307,3 +307,148 @@ Qed.
 
 End Shapes.
 End Squeeze.
+
+(* ================================================================ 2. the region *)
+Section Region.
+Variable fo : fops.
+Variable re : bytes -> bytes -> res bool.
+
+Notation frow_of w := (sel_frow fo re w).
+
+(* the accepted pairs among the pairs of a region that covers what the filter accepts *)
+Lemma pacc_region_slots (w : expr) (sc : scan) (d : store) :
+  ssorted d -> keys_ok (PScan sc) ->
+  (forall k, covers (FilterOpt.optimize w) k = true -> covers (region_of sc) k = true) ->
+  pacc kvpair (frow_of w) (somes (scan_slots sc d)) = pacc kvpair (frow_of w) d.
+Proof.
+  intros S K Hc. rewrite (somes_scan_slots sc d S K). unfold pacc.
+  apply FilterOptProofs.filter_filter_absorb. intros [k v] _ H. cbn [fst]. apply Hc.
+  unfold accb, sel_frow in H. cbn [fst snd] in H.
+  destruct (filter_row fo re k v w) as [[|]| | |] eqn:E; try discriminate H.
+  exact (filter_true_covered fo re k v _ E).
+Qed.
+
+Lemma fok_region_slots (w : expr) (sc : scan) (d : store) :
+  ssorted d -> keys_ok (PScan sc) ->
+  (forall kv, In kv d -> exists b, frow_of w kv = Ok b) ->
+  fok kvpair (frow_of w) (somes (scan_slots sc d)).
+Proof.
+  intros S K H. rewrite (somes_scan_slots sc d S K). unfold fok. apply Forall_forall.
+  intros kv Hin. apply filter_In in Hin. exact (H kv (proj1 Hin)).
+Qed.
+
+(* narrowed scan node vs FullScanPlan: the same accepted pairs *)
+Lemma narrowed_slots_same_accepted (w : expr) (d : store) :
+  ssorted d ->
+  pacc kvpair (frow_of w) (somes (scan_slots (scan_of_region (FilterOpt.optimize w)) d))
+  = pacc kvpair (frow_of w) (somes (scan_slots SFull d)).
+Proof.
+  intros S. rewrite (pacc_region_slots w _ d S (keys_ok_scan_of_region _)).
+  - rewrite (pacc_region_slots w SFull d S I); [reflexivity|]. intros; reflexivity.
+  - intros k H. now rewrite covers_scan_of_region.
+Qed.
+
+End Region.
+
+(* ================================================================ 3. the text *)
+Section Text.
+Variable fo : fops.
+Variable re : bytes -> bytes -> res bool.
+Variable fmt_v : F fo -> string.
+Variable ag : aggops fo.
+Variable pi pf : bytes -> option Z.
+
+Notation plan_stmt_text := (plan_stmt_text fo re fmt_v).
+Notation select_stmt_text := (select_stmt_text fo re fmt_v ag pi pf).
+Notation select_stmt_text_full := (select_stmt_text_full fo re fmt_v ag pi pf).
+Notation select_stmt_text_st := (select_stmt_text_st fo re fmt_v ag pi pf).
+Notation select_stmt_text_full_st := (select_stmt_text_full_st fo re fmt_v ag pi pf).
+Notation drain_planned := (drain_planned fo re ag pi pf).
+
+(* FilterExec.Filter (over the FOLDED WHERE tree of the accepted text) answers true or false on
+   every stored pair: no ExecuteError, no panic, inside the evaluator twin's fragment *)
+Definition filter_answers (q : string) (d : store) : Prop :=
+  forall pl, plan_stmt_text q = STOk pl ->
+  forall kv, In kv d -> exists b, sel_frow fo re (q_where fo (sp_q fo pl)) kv = Ok b.
+
+(* the two plans are built by the same BuildPlan: whatever happens before a pair is read
+   (rejection with its position, AggregatePlan.Init's error, the model boundary) is the same,
+   unconditionally; they differ in the scan node only *)
+Theorem narrowed_text_front_same q d m :
+  (forall pl, plan_stmt_text q <> STOk pl) ->
+  select_stmt_text_st q d m = select_stmt_text_full_st q d m.
+Proof.
+  intros H. unfold PipelineS.select_stmt_text_st, PipelineFull.select_stmt_text_full_st.
+  destruct (plan_stmt_text q) as [pl| | | | | | |]; try reflexivity. now elim (H pl).
+Qed.
+
+Lemma drain_row_narrowed_full pl d :
+  ssorted d ->
+  sp_scan fo pl = scan_of_region (FilterOpt.optimize (q_where fo (sp_q fo pl))) ->
+  (forall kv, In kv d -> exists b, sel_frow fo re (q_where fo (sp_q fo pl)) kv = Ok b) ->
+  drain_planned pl d MRow = drain_planned (with_full fo pl) d MRow.
+Proof.
+  intros S Es Hf. unfold PipelineS.drain_planned, PipelineS.run_mode, sp_shape, with_full. cbn [sp_q sp_scan].
+  rewrite Es. unfold select_shape_row.
+  apply run_shape_row_same_accepted.
+  - apply fok_region_slots; [exact S|apply keys_ok_scan_of_region|exact Hf].
+  - apply fok_region_slots; [exact S|exact I|exact Hf].
+  - apply narrowed_slots_same_accepted. exact S.
+Qed.
+
+(* (b), ROW MODE: rows, values, order, errors (class and position) -- the two outcomes are EQUAL,
+   for every shape *)
+Theorem narrowed_text_eq_full_row_st q d :
+  ssorted d -> filter_answers q d ->
+  select_stmt_text_st q d MRow = select_stmt_text_full_st q d MRow.
+Proof.
+  intros S Hf. unfold PipelineS.select_stmt_text_st, PipelineFull.select_stmt_text_full_st.
+  destruct (plan_stmt_text q) as [pl| | | | | | |] eqn:Ep; try reflexivity. cbn [stbind]. f_equal.
+  destruct (plan_stmt_text_inv fo re fmt_v q pl Ep) as (_ & _ & Es & _).
+  apply drain_row_narrowed_full; [exact S|exact Es|exact (Hf pl Ep)].
+Qed.
+
+Theorem narrowed_text_eq_full_row q d :
+  ssorted d -> filter_answers q d ->
+  select_stmt_text q d MRow = select_stmt_text_full q d MRow.
+Proof.
+  intros S Hf. unfold PipelineS.select_stmt_text, PipelineFull.select_stmt_text_full.
+  now rewrite (narrowed_text_eq_full_row_st q d S Hf).
+Qed.
+
+(* (b), BATCH MODE, every batch size: when the two batch drains complete they return the same
+   rows (up to string / []byte: [nrows], the normalisation of SelectPlansProofs.shape_batch_row).
+   Premise of the batch/row theorem: no select field is a list literal (fields_ok).
+   NOT proved in batch mode: equality of the ERRORS (false in general: the chunks of the two
+   scans differ, and processProjectionBatch evaluates column by column over a chunk, so WHICH
+   projection error comes first depends on the chunk boundaries), and "full completes =>
+   narrowed completes". *)
+Lemma text_full_run q d m rows :
+  select_stmt_text_full q d m = TOk rows ->
+  exists pl, plan_stmt_text q = STOk pl /\
+             run_mode fo re ag pi pf m (sp_q fo pl) (sp_shape fo pl) (scan_slots SFull d) = Ok rows.
+Proof.
+  unfold PipelineFull.select_stmt_text_full, PipelineFull.select_stmt_text_full_st. intros H.
+  apply to_tres_ok in H. apply stbind_ok in H. destruct H as (pl & Ep & H). apply of_drain_ok in H. eauto.
+Qed.
+
+Theorem narrowed_text_eq_full_batch_ok q d B rows rows' :
+  1 <= B -> ssorted d -> filter_answers q d ->
+  (forall pl, plan_stmt_text q = STOk pl -> fields_ok (q_fields fo (sp_q fo pl))) ->
+  select_stmt_text q d (MBatch B) = TOk rows ->
+  select_stmt_text_full q d (MBatch B) = TOk rows' ->
+  nrows rows = nrows rows'.
+Proof.
+  intros HB S Hf Hok H H'.
+  apply text_run in H. destruct H as (pl & Ep & H). cbn [PipelineS.run_mode] in H.
+  apply text_full_run in H'. destruct H' as (pl' & Ep' & H'). rewrite Ep in Ep'. injection Ep' as <-.
+  cbn [PipelineS.run_mode] in H'.
+  destruct (select_shape_batch_row fo re ag pi pf B _ _ _ _ HB (Hok pl Ep) H) as (r & Er & En).
+  destruct (select_shape_batch_row fo re ag pi pf B _ _ _ _ HB (Hok pl Ep) H') as (r' & Er' & En').
+  destruct (plan_stmt_text_inv fo re fmt_v q pl Ep) as (_ & _ & Es & _).
+  pose proof (drain_row_narrowed_full pl d S Es (Hf pl Ep)) as E.
+  unfold PipelineS.drain_planned, PipelineS.run_mode, sp_shape, with_full in E. cbn [sp_q sp_scan] in E.
+  unfold sp_shape in Er, Er'. rewrite Er, Er' in E. injection E as <-. congruence.
+Qed.
+
+End Text.
